@@ -220,7 +220,12 @@ def gen_c05(r, knobs=None):
                 break
             elif fault_kind == 'diskerr':
                 n_up = 1 + len(_upstream_names(b.insts(cid)[name]))
-                b.req(cid, name, diskerr={'k': r.randint(0, 8 * min(n_up, 3)), 'errno': r.choice(['ENOSPC', 'EIO', 'EACCES'])})
+                if r.random() < 0.3:
+                    # transient error while a stored file is opened for reading (the result may be loaded from storage)
+                    b.req(cid, name, diskerr={'k': r.randint(0, 2), 'errno': r.choice(['EMFILE', 'EIO']), 'read': True})
+                else:
+                    b.req(cid, name, diskerr={'k': r.randint(0, 8 * min(n_up, 3)), 'errno': r.choice(['ENOSPC', 'EIO', 'EACCES'])})
+                b.req(cid, name)        # the error was transient: the same request has to recover
                 b.op(op='insp', cid=cid, kind='has_data')
                 break
             else:
